@@ -76,7 +76,7 @@ limitations under the License.
 //> if 'cpp' in type_def.targets:
 extern "C" {
 
-[[maybe_unused]] JNIEXPORT void JNICALL {{ type_def.jni.jni_prefix }}_00024CppProxy_00024CleanupTask_nativeDestroy(JNIEnv* jniEnv, jobject /*this*/, jlong nativeRef) noexcept {
+[[maybe_unused]] JNIEXPORT void JNICALL {{ type_def.jni.jni_prefix }}CppProxy_00024CleanupTask_nativeDestroy(JNIEnv* jniEnv, jobject /*this*/, jlong nativeRef) noexcept {
     delete reinterpret_cast<::pydjinni::CppProxyHandle<{{ type_def.jni.wrapper }}>*>(nativeRef);
 }
 
